@@ -175,6 +175,9 @@ pub trait HObj {
     fn upd(self: Box<Self>, d: &[u8]) -> Box<dyn HObj>;
     fn updm(&mut self, d: &[u8]);
     fn cl(&self) -> Box<dyn HObj>;
+    fn as_any(&self) -> &dyn std::any::Any;
+    /// `self.clone_from(src)`
+    fn clf(&mut self, src: &dyn HObj);
     fn reset(&mut self);
     fn reset_key(&mut self, _k: &[u8]) {
         panic!("reset_with_key unsupported")
@@ -200,6 +203,13 @@ macro_rules! simple_hobj {
             }
             fn cl(&self) -> Box<dyn HObj> {
                 Box::new(self.clone())
+            }
+            fn as_any(&self) -> &dyn std::any::Any {
+                self
+            }
+            fn clf(&mut self, src: &dyn HObj) {
+                let s = src.as_any().downcast_ref::<Self>().expect("HARNESS: clone_from between different types");
+                self.clone_from(s)
             }
             fn reset(&mut self) {
                 <$t>::reset(self)
@@ -243,6 +253,13 @@ macro_rules! b2_arr_hobj {
             fn cl(&self) -> Box<dyn HObj> {
                 Box::new(self.clone())
             }
+            fn as_any(&self) -> &dyn std::any::Any {
+                self
+            }
+            fn clf(&mut self, src: &dyn HObj) {
+                let s = src.as_any().downcast_ref::<Self>().expect("HARNESS: clone_from between different types");
+                self.clone_from(s)
+            }
             fn reset(&mut self) {
                 $m::Context::<$b>::reset(self)
             }
@@ -283,6 +300,13 @@ macro_rules! b2_at_hobj {
             }
             fn cl(&self) -> Box<dyn HObj> {
                 Box::new(self.clone())
+            }
+            fn as_any(&self) -> &dyn std::any::Any {
+                self
+            }
+            fn clf(&mut self, src: &dyn HObj) {
+                let s = src.as_any().downcast_ref::<Self>().expect("HARNESS: clone_from between different types");
+                self.clone_from(s)
             }
             fn reset(&mut self) {
                 $m::Context::<$b>::reset(self)
@@ -336,6 +360,14 @@ impl HObj for B2bDyn {
     fn cl(&self) -> Box<dyn HObj> {
         Box::new(B2bDyn(self.0.clone(), self.1))
     }
+    fn as_any(&self) -> &dyn std::any::Any {
+        self
+    }
+    fn clf(&mut self, src: &dyn HObj) {
+        let s = src.as_any().downcast_ref::<Self>().expect("HARNESS: clone_from between different types");
+        self.0.clone_from(&s.0);
+        self.1 = s.1;
+    }
     fn reset(&mut self) {
         self.0.reset()
     }
@@ -372,6 +404,14 @@ impl HObj for B2sDyn {
     }
     fn cl(&self) -> Box<dyn HObj> {
         Box::new(B2sDyn(self.0.clone(), self.1))
+    }
+    fn as_any(&self) -> &dyn std::any::Any {
+        self
+    }
+    fn clf(&mut self, src: &dyn HObj) {
+        let s = src.as_any().downcast_ref::<Self>().expect("HARNESS: clone_from between different types");
+        self.0.clone_from(&s.0);
+        self.1 = s.1;
     }
     fn reset(&mut self) {
         self.0.reset()
@@ -512,6 +552,15 @@ pub fn history(variant: &str, steps: &[&str]) -> Vec<String> {
                         objs.push(None);
                     }
                     objs[dst] = Some(c);
+                    None
+                })
+            }
+            // cf.DST.SRC : objs[DST].clone_from(&objs[SRC])
+            "cf" => {
+                let src = usz(p[2]);
+                step(&mut out, || {
+                    let s = objs[src].as_ref().unwrap().cl();
+                    objs[o].as_mut().unwrap().clf(s.as_ref());
                     None
                 })
             }
